@@ -97,13 +97,13 @@ def classify(run, lmap, fns_by_key):
         if label: props |= set(label_props(label))
         safety = []
         if key and key in fns_by_key: safety = fns_by_key[key].get("safety", [])
-        body_level = not (label and part == "ensures")
+        body_level = not (label and part in ("ensures", "theorem"))
         if body_level:
             props |= set(safety)
         if not props:
             # failure in spec/shim/lemma text or in a fn without any tag: treat as shared infrastructure
             props |= set(SHARED)
-        name = label if (label and part == "ensures") else None
+        name = label if (label and part in ("ensures", "theorem")) else None
         if name is None:
             base = (key or (fnmeta or {}).get("file", "?"))
             name = "%s.body.%s%s" % (base, re.sub(r"[^a-z]+", "_", kind.lower()).strip("_"), ("[" + label + "]") if label else "")
@@ -183,6 +183,9 @@ def obligations_for(ctx):
                 if p in per: per[p].append(lab)
         for p in f.get("safety", []):
             if p in per and not f.get("external_body"): per[p].append(key + ".body.safety")
+    for t in getattr(ctx, "theorems", []):
+        for p in label_props(t["label"]):
+            if p in per: per[p].append(t["label"])
     return per
 
 def main(argv):
@@ -413,7 +416,10 @@ def write_evidence(pid, tier, seed, obls, discharged, fails, runs, vr, times, ct
     for f in ctx.fn_index:
         for lab, txt in f.get("ens_texts", []):
             lab_text[lab] = (f, txt)
-    for o in obls[:400]:
+    for t in getattr(ctx, "theorems", []):
+        if t["label"] in obls and len(samples) < 2:
+            samples.append({"obligation": t["label"], "function": "proof fn %s (%s)" % (t["fn"], t["file"]), "clause": t["text"][:400], "backend": "verus/z3"})
+    for o in sorted(obls, key=lambda o: (0 if re.match(r"^C\d\d", o) and pid in o.split(".")[0] else 1)):
         if o in lab_text and len(samples) < 6:
             f, txt = lab_text[o]
             samples.append({"obligation": o, "function": "%s :: %s::%s" % (f["file"], f["impl"], f["fn"]), "clause": " ".join(txt.split())[:400], "backend": "verus/z3"})
